@@ -598,6 +598,23 @@ def step (toks : List String) : String :=
     let r := swapGraphs (mk e1 g1 h1 n1 c1 st1 sl1) (mk e2 g2 h2 n2 c2 st2 sl2)
     let sh (x : Replica IsingH) := s!"{x.cutoff} {x.cfg.slots.length} {showBits x.cfg.state} {showSlots x.cfg.slots}"
     s!"{sh r.1} {sh r.2}"
+  | "gadmit" :: hams =>
+    -- admission of generic replicas: `add_qmc_stepper` tests the newcomer against the last replica with
+    -- `can_swap_managers` (= `bonds == bonds`); the verdict is the index of the first refusal
+    let hs := hams.map parseGenH
+    let mkR (h : GenH) : Replica GenH :=
+      { ham := h, beta := 1, offset := 0, rng := 0, bw := 0, cutoff := 0, cfg := { state := [], slots := [] } }
+    let r := hs.foldl (fun (st : Container GenH × Option Nat × Nat) h =>
+      match st.2.1 with
+      | some _ => st
+      | none =>
+        match addStepper genericIface st.1 (mkR h) with
+        | some c' => (c', none, st.2.2 + 1)
+        | none => (st.1, some st.2.2, st.2.2))
+      (({ graphs := [], rng := RS.ofScript [], eqA := none, eqB := none, totalSwaps := 0 } : Container GenH), none, 0)
+    match r.2.1 with
+    | some k => s!"refused@{k}"
+    | none => "accepted"
   | ["hist", _k, _n, t, sf, mf] =>
     -- cadence of the drivers (C17): a tempering step at every multiple of `sf`, a sample at every
     -- multiple of `mf`, up to `t`
